@@ -303,8 +303,9 @@ func rleDecode(name string, data []byte, max int) ([]byte, error) {
 // exported Codec seam and fails on marked messages: a fault injected at the
 // point where user data enters or leaves the wire format.
 type simCodec struct {
-	name  string
-	inner connect.Codec
+	name   string
+	inner  connect.Codec
+	strict bool // marshals the service's own message type only
 }
 
 // marshalFailMarker: a message whose value starts with this cannot be
@@ -318,6 +319,9 @@ func (c *simCodec) Name() string { return c.name }
 var marshalFailEOFMarker = append(append([]byte(nil), marshalFailMarker...), []byte("/EOF")...)
 
 func (c *simCodec) Marshal(m any) ([]byte, error) {
+	if _, ok := m.(*Msg); !ok && c.strict {
+		return nil, fmt.Errorf("sim codec: cannot marshal %T, only the service's messages", m)
+	}
 	if bv, ok := m.(*Msg); ok && bytes.HasPrefix(bv.GetValue(), marshalFailEOFMarker) {
 		return nil, fmt.Errorf("sim: message cannot be marshalled: source ran dry: %w", io.EOF)
 	}
